@@ -89,11 +89,11 @@ template<typename K> std::vector<K> query_alphabet(const std::vector<K> &vals) {
 //         kind 0 arithmetic / 1 duplicates, L from {1,2,e,e+1,2e,2e+1,2e+2,2e+3,4e+4}, stride {1,2,3,2^16,2^40}, gap {1,2,2^16}.
 struct FamilySpec {
     std::string kind;
-    long n = 0, chunks = 1, seam = 0, word = 0, width = 6, rep = 1;
+    long n = 0, chunks = 1, seam = 0, word = 0, width = 6, rep = 1, top = 0;   // top: the family starts at 3/4 of the key domain instead of 1000
     std::vector<long> blocks;
     std::string str() const {
         std::string s = kind + ":p=" + std::to_string(chunks);
-        if (kind == "density") s += ":rep=" + std::to_string(rep) + ":w=" + std::to_string(width) + ":word=" + std::to_string(word) + ":seam=" + std::to_string(seam);
+        if (kind == "density") s += ":rep=" + std::to_string(rep) + ":w=" + std::to_string(width) + ":word=" + std::to_string(word) + ":seam=" + std::to_string(seam) + (top ? ":top=1" : "");
         else if (kind == "chunktail") s += ":rep=" + std::to_string(rep) + ":w=" + std::to_string(width) + ":word=" + std::to_string(word);
         else if (kind == "longrun") s += ":n=" + std::to_string(n) + ":seam=" + std::to_string(seam) + ":rep=" + std::to_string(rep) + ":w=" + std::to_string(width) + ":word=" + std::to_string(word);
         else if (kind == "span") s += ":rep=" + std::to_string(rep) + ":w=" + std::to_string(width) + ":word=" + std::to_string(word);
@@ -106,7 +106,7 @@ struct FamilySpec {
         for (size_t i = 1; i < parts.size(); ++i) {
             auto eq = parts[i].find('='); auto k = parts[i].substr(0, eq), v = parts[i].substr(eq + 1);
             if (k == "p") f.chunks = atol(v.c_str()); else if (k == "n") f.n = atol(v.c_str()); else if (k == "seam") f.seam = atol(v.c_str());
-            else if (k == "w") f.width = atol(v.c_str()); else if (k == "word") f.word = atol(v.c_str()); else if (k == "rep") f.rep = atol(v.c_str());
+            else if (k == "w") f.width = atol(v.c_str()); else if (k == "word") f.word = atol(v.c_str()); else if (k == "rep") f.rep = atol(v.c_str()); else if (k == "top") f.top = atol(v.c_str());
             else if (k == "b") for (auto &t : mc::split(v, '.')) f.blocks.push_back(atol(t.c_str()));
         }
         return f;
@@ -208,7 +208,7 @@ template<typename K> bool generate_family(const FamilySpec &f, size_t eps, std::
         // `word` (base 4 -> multipliers 1,2,4,8), `width` digits: many short bottom segments and several segments on the upper levels.
         // `seam` encodes an optional jump: 1 = gap of 3x the span so far after the first digit block, 2 = 30x after the first block,
         // 3 = 30x after the third block (heavily skewed segment keys: long runs of empty Elias-Fano / top-level buckets).
-        long w = f.word; W cur = 1000;
+        long w = f.word; W cur = f.top ? hi / 4 * 3 : W(1000);   // top: keys beyond 2^53 for 64-bit types (not exactly representable as double)
         const W mult[4] = {1, 2, 4, 8};
         long csz = 2 * long(eps) + 2;   // cluster size: one segment per cluster for this epsilon
         if (csz * f.rep * f.width > 800000) return false;   // member too large for this epsilon
@@ -220,7 +220,7 @@ template<typename K> bool generate_family(const FamilySpec &f, size_t eps, std::
                 if (f.rep * f.width <= 60000 || c < 3 || c + 3 >= f.rep || c % 37 == 0) { focus.push_back(first_pos); focus.push_back(first_pos + size_t(csz) - 1); }
             }
             if ((f.seam == 1 && d == 0) || (f.seam == 2 && d == 0) || (f.seam == 3 && d == 2)) {
-                W span = cur - 1000, jump = span * (f.seam == 1 ? 3 : 30);
+                W span = cur - (f.top ? hi / 4 * 3 : W(1000)), jump = span * (f.seam == 1 ? 3 : 30);
                 keys.push_back(cur + jump / 2);   // a lone key in the middle of the jump
                 focus.push_back(keys.size() - 1);
                 cur += jump;
